@@ -44,3 +44,50 @@ Definition acheck (x : exits) (c : acase) : bool :=
   end.
 Definition afailing (x : exits) (cs : list acase) : list nat :=
   map (fun c => match c with (n, _, _, _) => n end) (filter (fun c => negb (acheck x c)) cs).
+
+(* ---- the machine with the generated KEY function, on request logs over a
+   pool of related function objects (wrappers carrying __wrapped__, bound
+   methods, functions sharing code) ------------------------------------------- *)
+Fixpoint erequests (chain : akey_chain) (h : fheap) (static : akey -> bool) (x : exits) (s : estate)
+  (reqs : list (nat * ereq)) : option estate :=
+  match reqs with
+  | [] => Some s
+  | (tid, r) :: t =>
+      match estep chain h static x s (EDecide tid r) with
+      | None => None
+      | Some s1 =>
+          match epending s1 tid with
+          | None => erequests chain h static x s1 t
+          | Some _ => match estep chain h static x s1 (ECommit tid) with
+                      | Some s2 => erequests chain h static x s2 t
+                      | None => None
+                      end
+          end
+      end
+  end.
+
+Definition heap_of (tbl : list (nat * option nat * nat)) : fheap :=
+  fun f => match find (fun e => match e with (g, _, _) => Nat.eqb g f end) tbl with
+           | Some (_, w, c) => mkF w c
+           | None => mkF None 0
+           end.
+
+(* index, function objects (id, __wrapped__, code class), (function, options)
+   pairs with a context-independent reason to run as-is, the logged requests
+   (thread, function, handed over as bound method, options, disabled), the
+   logged decisions "converted" *)
+Definition ecase : Set :=
+  (nat * list (nat * option nat * nat) * list akey * list (nat * nat * bool * nat * bool) * list bool)%type.
+
+Definition echeck (chain : akey_chain) (x : exits) (c : ecase) : bool :=
+  match c with
+  | (_, tbl, st, reqs, obs) =>
+    let static := fun k => existsb (akey_eqb k) st in
+    match erequests chain (heap_of tbl) static x einit
+            (map (fun q => match q with (tid, f, b, o, d) => (tid, mkEReq f b o d) end) reqs) with
+    | Some s => bools_beq (rev (map snd (elog s))) obs
+    | None => false
+    end
+  end.
+Definition efailing (chain : akey_chain) (x : exits) (cs : list ecase) : list nat :=
+  map (fun c => match c with (n, _, _, _, _) => n end) (filter (fun c => negb (echeck chain x c)) cs).
